@@ -7,7 +7,7 @@ whose three tails are live and carry `S` of the inputs; the trainings it records
 nothing older is touched (`Frame`, `Agree`).  The action may be run any number of times (a scope-wrapping
 operator expands its left side once per fold): `Spec` quantifies over the start graph.
 -/
-import ForML.Lemmas.C03Prim
+import ForML.Lemmas.C03Reach
 
 namespace ForML.Compose
 
@@ -18,11 +18,13 @@ def trainedUnder (W : World) (t : Training) : Nat × Val :=
 structure HeadOk (g0 g' : Graph) (W' : World) (h : Nat) (x : Val) (r : Nat) : Prop where
   ge : g0.next ≤ h
   isOpen : g'.isOpen h
+  /-- no input port of the hole is subscribed -/
+  free : ∀ k, g'.inputOf h k = none
   live : W'.live h
   rank : W'.h h = r
   val : ∀ i, W'.σ ⟨h, i⟩ = x
 
-structure TrunkOk (g g' : Graph) (W W' : World) (t : Trunk) (xa xt xl : Val) (r : Nat) (s : Sem) : Prop where
+structure TrunkOk (full : Prop) (g g' : Graph) (W W' : World) (t : Trunk) (xa xt xl : Val) (r : Nat) (s : Sem) : Prop where
   inv : Inv g' W'
   frame : Frame g g'
   agree : Agree g.next W W'
@@ -38,10 +40,43 @@ structure TrunkOk (g g' : Graph) (W W' : World) (t : Trunk) (xa xt xl : Val) (r 
     ts.map (trainedUnder W') = s.states
   /-- every worker this expansion made evaluable belongs to a group this expansion created -/
   fresh : ∀ n, g.next ≤ n → W'.live n → ∀ gid a i o, g'.kindOf n = some (.worker gid a i o) → g.next ≤ gid
+  wired : Wired g'
+  tails_ge : g.next ≤ t.apply.tail ∧ g.next ≤ t.train.tail ∧ g.next ≤ t.label.tail
+  /-- ranks are relative to the rank `r` chosen for the heads: at most one level per id drawn -/
+  rank : ∀ n, g.next ≤ n → W'.live n → W'.h n < r + (g'.next - g.next)
+  /-- the apply region: whatever is reachable from the apply head is evaluable and fed from the apply region only -/
+  reg : full → ∀ n, Reach g' t.apply.head n → n ≠ t.apply.head →
+    W'.live n ∧ ∀ k q, g'.inputOf n k = some q → Reach g' t.apply.head q.node
+  regTail : full → Reach g' t.apply.head t.apply.tail
+  /-- the train and label paths are not fed from the apply path -/
+  sep : full → ¬ Reach g' t.apply.head t.train.tail ∧ ¬ Reach g' t.apply.head t.label.tail
+  /-- what this expansion built subscribes only to what this expansion built (the heads are bound by the caller) -/
+  closed : full → ∀ s k q, g.next ≤ s → g'.inputOf s k = some q → g.next ≤ q.node
 
-def Spec (m : GraphM Trunk) (S : Scope) : Prop :=
-  ∀ (g : Graph) (W : World) (xa xt xl : Val) (r : Nat), Inv g W → r ≤ g.next →
-    ∃ t g' W', Run m g t g' ∧ TrunkOk g g' W W' t xa xt xl r (S xa xt xl)
+/-- `full`: whether the region certificate (`reg`, `regTail`, `sep`, `closed`: what `Segment.copy` needs) is provided;
+the stacking ensemble consumes it from its scope and base models and does not re-establish it for its own trunk -/
+def Spec (full : Prop) (m : GraphM Trunk) (S : Scope) : Prop :=
+  ∀ (g : Graph) (W : World) (xa xt xl : Val) (r : Nat), Inv g W → Wired g → r ≤ g.next →
+    ∃ t g' W', Run m g t g' ∧ TrunkOk full g g' W W' t xa xt xl r (S xa xt xl)
+
+theorem TrunkOk.weaken {full full' : Prop} (hff : full' → full) {g g' W W' t xa xt xl r s}
+    (h : TrunkOk full g g' W W' t xa xt xl r s) : TrunkOk full' g g' W W' t xa xt xl r s :=
+  ⟨h.inv, h.frame, h.agree, h.ha, h.ht, h.hl, h.distinct, h.opens, h.ta, h.tt, h.tl, h.trains, h.fresh, h.wired, h.tails_ge,
+    h.rank, fun hf => h.reg (hff hf), fun hf => h.regTail (hff hf), fun hf => h.sep (hff hf), fun hf => h.closed (hff hf)⟩
+
+theorem Spec.weaken {full full' : Prop} (hff : full' → full) {m : GraphM Trunk} {S : Scope} (h : Spec full m S) :
+    Spec full' m S := by
+  intro g W xa xt xl r hi hw hr
+  obtain ⟨t, g', W', hrun, hok⟩ := h g W xa xt xl r hi hw hr
+  exact ⟨t, g', W', hrun, hok.weaken hff⟩
+
+/-- inputs recorded in `g` are inputs in any frame extension of `g` -/
+theorem Frame.input_mono {g g' : Graph} (hf : Frame g g') (hb : Bounded g) :
+    ∀ s k q, g.inputOf s k = some q → g'.inputOf s k = some q := by
+  intro s k q h
+  by_cases hs : s < g.next
+  · rw [hf.input s k hs]; exact h
+  · rw [hb.inputOf_none (by omega) k] at h; cases h
 
 /-! ### more preservation lemmas -/
 
@@ -167,6 +202,12 @@ theorem trainIf_bounded {c w lt ll g} (hb : Bounded g) (hg : w.gid < g.next) : B
     refine (hb.bump.pushNode _ (by simp) ?_).pushTrain _ (by simp; omega)
     intro _ _ _ _ h; cases h; simp; omega
 
+theorem trainIf_wired {c w lt ll g} (hw : Wired g) : Wired (trainIf c w lt ll g) := by
+  cases c
+  · exact hw
+  · simp only [trainIf, if_true]
+    exact (hw.bump.pushNode _).pushTrain _
+
 theorem trainIf_frame {c w lt ll g0 g} (hf : Frame g0 g) (hg : g0.next ≤ w.gid) : Frame g0 (trainIf c w lt ll g) := by
   cases c
   · exact hf
@@ -212,8 +253,8 @@ theorem run_trunk_new (g : Graph) :
     Run Trunk.new g ⟨.ofNode g.next, .ofNode (g.next + 1), .ofNode (g.next + 2)⟩
       (((g.bump.pushNode ⟨g.next, .future⟩).bump.pushNode ⟨g.next + 1, .future⟩).bump.pushNode ⟨g.next + 2, .future⟩) := rfl
 
-theorem spec_new : Spec Trunk.new Scope.origin := by
-  intro g W xa xt xl r hi hr
+theorem spec_new {full : Prop} : Spec full Trunk.new Scope.origin := by
+  intro g W xa xt xl r hi hw hr
   let g1 := g.bump.pushNode ⟨g.next, .future⟩
   let g2 := g1.bump.pushNode ⟨g.next + 1, .future⟩
   let g3 := g2.bump.pushNode ⟨g.next + 2, .future⟩
@@ -252,8 +293,8 @@ theorem spec_new : Spec Trunk.new Scope.origin := by
   have hag : Agree g.next W W3 :=
     (((Agree.refl _ W).set _ _ _ (Nat.le_refl _)).set _ _ _ (by omega)).set _ _ _ (by omega)
   refine ⟨_, g3, W3, run_trunk_new g, ?_⟩
-  refine ⟨hi6, hf3, hag, ?_, ?_, ?_, ?_, ?_, ?_, ?_, ?_, ?_, ?_⟩
-  · refine ⟨Nat.le_refl _, ⟨hka, hin3 _ _ (Nat.le_refl _)⟩, ?_, ?_, ?_⟩
+  refine ⟨hi6, hf3, hag, ?_, ?_, ?_, ?_, ?_, ?_, ?_, ?_, ?_, ?_, ?_, ?_, ?_, ?_, ?_, ?_, ?_⟩
+  · refine ⟨Nat.le_refl _, ⟨hka, hin3 _ _ (Nat.le_refl _)⟩, fun k => hin3 _ k (Nat.le_refl _), ?_, ?_, ?_⟩
     · show W3.live g.next
       simp [W3, W2, W1]
     · show W3.h g.next = r
@@ -261,7 +302,8 @@ theorem spec_new : Spec Trunk.new Scope.origin := by
     · intro i
       show W3.σ ⟨g.next, i⟩ = xa
       simp [W3, W2, W1, World.set]
-  · refine ⟨by simp [Segment.ofNode], ⟨hkt, hin3 _ _ (by simp [Segment.ofNode])⟩, ?_, ?_, ?_⟩
+  · refine ⟨by simp [Segment.ofNode], ⟨hkt, hin3 _ _ (by simp [Segment.ofNode])⟩,
+      fun k => hin3 _ k (by simp [Segment.ofNode]), ?_, ?_, ?_⟩
     · show W3.live (g.next + 1)
       simp [W3, W2, W1]
     · show W3.h (g.next + 1) = r
@@ -269,7 +311,8 @@ theorem spec_new : Spec Trunk.new Scope.origin := by
     · intro i
       show W3.σ ⟨g.next + 1, i⟩ = xt
       simp [W3, W2, W1, World.set]
-  · refine ⟨by simp [Segment.ofNode], ⟨hkl, hin3 _ _ (by simp [Segment.ofNode])⟩, ?_, ?_, ?_⟩
+  · refine ⟨by simp [Segment.ofNode], ⟨hkl, hin3 _ _ (by simp [Segment.ofNode])⟩,
+      fun k => hin3 _ k (by simp [Segment.ofNode]), ?_, ?_, ?_⟩
     · show W3.live (g.next + 2)
       simp [W3, W2, W1]
     · show W3.h (g.next + 2) = r
@@ -312,5 +355,34 @@ theorem spec_new : Spec Trunk.new Scope.origin := by
     · subst h; rw [hkt] at hk; cases hk
     · subst h; rw [hka] at hk; cases hk
     · exact absurd h (hnl n hn)
+  · exact ((hw.bump.pushNode _).bump.pushNode _).bump.pushNode _
+  · exact ⟨Nat.le_refl _, by simp [Segment.ofNode], by simp [Segment.ofNode]⟩
+  · intro n hn hl
+    have : n = g.next + 2 ∨ n = g.next + 1 ∨ n = g.next ∨ W.live n := hl
+    have h3 : W3.h (g.next + 2) = r := by simp [W3, W2, W1, World.set]
+    have h2 : W3.h (g.next + 1) = r := by simp [W3, W2, W1, World.set]
+    have h1 : W3.h g.next = r := by simp [W3, W2, W1, World.set]
+    rcases this with h | h | h | h
+    · subst h; rw [h3, hn3]; omega
+    · subst h; rw [h2, hn3]; omega
+    · subst h; rw [h1, hn3]; omega
+    · exact absurd h (hnl n hn)
+  · -- nothing is subscribed yet: only the head itself is reachable
+    intro _ n hre hne
+    rcases hre.inv with h | ⟨k, q, hq, _⟩
+    · exact absurd h hne
+    · have hge : g.next ≤ n := Reach.new hf3 hw (Nat.le_refl _) hre
+      rw [hin3 n k hge] at hq; cases hq
+  · exact fun _ => Reach.refl
+  · intro _
+    have nope : ∀ n, n ≠ g.next → ¬ Reach g3 g.next n := by
+      intro n hne hre
+      rcases hre.inv with h | ⟨k, q, hq, _⟩
+      · exact hne h
+      · have hge : g.next ≤ n := Reach.new hf3 hw (Nat.le_refl _) hre
+        rw [hin3 n k hge] at hq; cases hq
+    exact ⟨nope _ (by simp [Segment.ofNode]), nope _ (by simp [Segment.ofNode])⟩
+  · intro _ s k q hs hq
+    rw [hin3 s k hs] at hq; cases hq
 
 end ForML.Compose
